@@ -23,6 +23,7 @@ EXPLANATION = (
     "with parts [start, L) and [0, end)), the codon tables / frames / write-once start state (R15.3), the gap finder "
     "only advancing its frontier under a test on that frontier (R15.4), and strand order of the parts of an "
     "origin-crossing ORF (R15.5)."
+    ' R15.8: an ORF that wraps over the origin is never split by the strand-blind shift helper (clone_with_offset with a wrap point).'
 )
 UNDECIDED = [
     "exactness against an independent scanner for all sequences",
